@@ -123,7 +123,7 @@ CHECKS["C06"] = dict(level="proof", engine="pyvc",
 CHECKS["C18"] = dict(level="proof", engine="pyvc",
     text="The real solve_ivp is executed symbolically with the OdeSystem replaced by the contracts proved in C03 (integrate) and C19 (__getitem__): args bound to parameters in order through nested DiffRHS wrappers, "
          "first step clipped into [min_step, max_step], settings/method/events/callbacks passed through, clipping callback keeps |dt| in range and its sign, without t_eval (system.t, states with the time axis moved last), "
-         "with t_eval (1..3 symbolic times, any order, repeats, both span directions) exactly the requested times in integration order to tol_epsilon, ValueError only for times outside the span, result fields are the system's own; "
+         "with t_eval (1..3 symbolic times, any order, repeats, both span directions: enumerated; and an array of any length: the loop over the requested times cut by an invariant, numpy.sort by its axioms) exactly the requested times in integration order to tol_epsilon, ValueError only for times outside the span, result fields are the system's own; "
          "max_step chain: integrate() with the clipping callback's contract never records a step longer than max_step (loop invariant on the real integrate).",
     note="inside solve_ivp the OdeSystem is represented by the construction contract, which is proved in the same run from the real OdeSystem.__init__; shapes for n-d states, dtypes and scipy parity are a bounded native family; getfullargspec / sort / transpose assumed (A3); A1",
     technique="modular verification of the facade against callee contracts + loop invariant for the max_step chain",
